@@ -189,7 +189,7 @@ def gen_configs(seed: int, n: int, nx_max: int, families: str = "all", f32_table
         elif nx > 100 and ratio > 0.9:
             ratio = float(rng.uniform(0.05, 0.9))
             pf = max(lo_p, ratio * pi)
-        grid = str(rng.choice(["uniform", "quadratic", "geometric", "random", "jumpy", "huge", "drift", "nearuniform", "tiny", "intdays", "f32", "dupes"]))
+        grid = str(rng.choice(["uniform", "quadratic", "geometric", "random", "jumpy", "huge", "drift", "nearuniform", "tiny", "intdays", "f32", "dupes", "epoch"]))
         nt = int(rng.integers(3, 120)) if nx > 100 else int(rng.integers(3, 400))
         if ratio >= 0.99:
             nt = min(nt, 150)
